@@ -202,8 +202,14 @@ func ReaderFromDelta(base plumbing.EncodedObject, deltaRC io.Reader) (io.ReadClo
 					basePos += uint(n)
 					discard -= uint(n)
 				}
-				if _, err := ioutil.CopyBufferPool(dstWr, io.LimitReader(baseBuf, int64(sz))); err != nil {
+				n, err := ioutil.CopyBufferPool(dstWr, io.LimitReader(baseBuf, int64(sz)))
+				if err != nil {
 					_ = dstWr.CloseWithError(err)
+					return
+				}
+				if uint(n) != sz {
+					// The base ended before the copy was complete.
+					_ = dstWr.CloseWithError(ErrInvalidDelta)
 					return
 				}
 				remainingTargetSz -= sz
@@ -215,8 +221,14 @@ func ReaderFromDelta(base plumbing.EncodedObject, deltaRC io.Reader) (io.ReadClo
 					_ = dstWr.CloseWithError(ErrInvalidDelta)
 					return
 				}
-				if _, err := ioutil.CopyBufferPool(dstWr, io.LimitReader(deltaBuf, int64(sz))); err != nil {
+				n, err := ioutil.CopyBufferPool(dstWr, io.LimitReader(deltaBuf, int64(sz)))
+				if err != nil {
 					_ = dstWr.CloseWithError(err)
+					return
+				}
+				if uint(n) != sz {
+					// The delta ended before the literal data was complete.
+					_ = dstWr.CloseWithError(ErrInvalidDelta)
 					return
 				}
 
@@ -412,8 +424,13 @@ func patchDeltaWriter(dst io.Writer, base io.ReaderAt, deltaBuf *bufio.Reader,
 				return 0, plumbing.ZeroHash, err
 			}
 			baselr.N = int64(sz)
-			if _, err := io.CopyBuffer(mw, baselr, buf); err != nil {
+			n, err := io.CopyBuffer(mw, baselr, buf)
+			if err != nil {
 				return 0, plumbing.ZeroHash, err
+			}
+			if uint(n) != sz {
+				// The base ended before the copy was complete.
+				return 0, plumbing.ZeroHash, ErrInvalidDelta
 			}
 			remainingTargetSz -= sz
 		case isCopyFromDelta(cmd):
@@ -422,8 +439,13 @@ func patchDeltaWriter(dst io.Writer, base io.ReaderAt, deltaBuf *bufio.Reader,
 				return 0, plumbing.ZeroHash, ErrInvalidDelta
 			}
 			deltalr.N = int64(sz)
-			if _, err := io.CopyBuffer(mw, deltalr, buf); err != nil {
+			n, err := io.CopyBuffer(mw, deltalr, buf)
+			if err != nil {
 				return 0, plumbing.ZeroHash, err
+			}
+			if uint(n) != sz {
+				// The delta ended before the literal data was complete.
+				return 0, plumbing.ZeroHash, ErrInvalidDelta
 			}
 
 			remainingTargetSz -= sz
